@@ -6,7 +6,7 @@ clipping, re-iterable lazy fibers).
 import ast
 
 from ..model import text, AnalysisError
-from ..cfg import guards, atomic_guards, enclosing_stmt, is_within
+from ..cfg import cfg_of, guards, atomic_guards, enclosing_stmt, is_within
 from ..effects import STATS_LOCS
 from .. import pat
 
@@ -201,11 +201,18 @@ def r2(ctx):
 def _dense_core(ctx, f, name, acc, recv):
     loops = [n for n in f.own_nodes() if isinstance(n, ast.For)
              and isinstance(n.iter, ast.Call) and text(n.iter.func) == "range"]
-    if len(loops) != 1:
+    # one loop -- or copies of it for different modes (metrics on / off), of
+    # which a run takes exactly one: none leads into another
+    g = cfg_of(f, assert_edges=False)
+    if not loops or any(a is not b and g.can_reach(a, b) for a in loops for b in loops):
         ctx.bad("C07.R4", f, f.node, "%s must iterate range(start, end, step)"
                 % name, text_="%s range loop" % name)
         return
-    lp = loops[0]
+    for lp in loops:
+        _dense_loop(ctx, f, name, acc, recv, lp)
+
+
+def _dense_loop(ctx, f, name, acc, recv, lp):
     cvar = text(lp.target)
     a = [text(x).replace("self.", "").rstrip("_") for x in lp.iter.args]
     if a == ["start", "end", "step"]:
